@@ -38,8 +38,8 @@ def handle (line : String) : Out :=
       -- order-dependent inputs (both a missing delegation and a lookup error among the
       -- non-zero withdrawals) are not generated: Go's map order would decide
       if nz.any (·.lookup == .noDelegation) && nz.any (·.lookup == .error) then badOp else
-      -- a Dijkstra transaction cannot encode is_valid = false
-      if era = "dijkstra" && !valid then { model := "decode-err", spec := "*" } else
+      -- (a Dijkstra transaction with is_valid = false cannot be decoded; the harness builds
+      --  the struct directly, so it is an input like any other)
       let o : Op := { pv := pv, valid := valid, capable := (st = "cap"), wds := wds }
       -- spec, from the property text. It speaks about phase-2-valid transactions and
       -- registered key-hash accounts; elsewhere it is silent.
